@@ -1431,6 +1431,106 @@ def r7_form_reader_rejects_only_parse_failures(run):
     if not n_bad[0]:
         run.ok('form reader: no rejection is decided by a look at the decoded content', des.loc(), des.qual)
 
+# ---------------------------------------------------------------------------
+# R8 a handler's serializer / deserializer slots are bound on every constructor path
+# ---------------------------------------------------------------------------
+
+BASE_HANDLER = 'falcon.media.base.BaseHandler'
+JSON_HANDLER = 'falcon.media.json.JSONHandler'
+
+
+def _is_abstract(p, f: Func) -> bool:
+    """No normal path to the exit and every way out is `raise NotImplementedError`."""
+    cfg = cfg_of(f, p)
+    if cfg.exit in flow.reachable(cfg, [cfg.entry], edge_filter=flow.no_exc):
+        return False
+    raises = [n for n in walk_self(f.node) if isinstance(n, ast.Raise)]
+    if not raises:
+        return False
+    for r in raises:
+        e = r.exc.func if isinstance(r.exc, ast.Call) else r.exc
+        if e is None or p.resolve_expr(f.module, e, f) != 'builtins.NotImplementedError':
+            return False
+    return True
+
+
+def r8_handler_slots_bound(run):
+    """A media handler may choose its (de)serializer implementation per instance (`self.serialize = self._serialize_b`).
+    Such a slot has no working class-level fallback when the method found through the MRO is one of BaseHandler's
+    abstract placeholders (all paths raise NotImplementedError) or nothing at all; then the slot must be bound on EVERY
+    normal path through the constructor -- for both result types (str / bytes) of the configured dumps().  Slots with a
+    working fallback (serialize_async delegates to serialize; `_serialize_sync = None` means "no fast path") may be
+    bound on some paths only.  JSONHandler, the handler the framework itself renders errors and media with, must
+    provide both abstract slots one way or the other.
+    W: JSONHandler(dumps=orjson.dumps) (bytes): no instance `serialize`, BaseHandler.serialize raises
+    NotImplementedError -> every `resp.media = doc` is a 500."""
+    p = run.project
+    base = p.cls(BASE_HANDLER)
+    abstract = sorted(n for n, f in base.methods.items() if not f.is_async and _is_abstract(p, f))
+    if not abstract:
+        raise AnchorError('%s has no abstract (NotImplementedError) placeholder any more' % BASE_HANDLER)
+    run.sample({'abstract slots of BaseHandler': abstract})
+    n_ob = 0
+    for cq in sorted(p.subclasses(BASE_HANDLER)):
+        if cq == BASE_HANDLER:
+            continue
+        c = p.cls(cq)
+        init = c.methods.get('__init__')
+        assigned: Dict[str, List[int]] = {}
+        cfg = None
+        if init is not None:
+            cfg = cfg_of(init, p)
+            sn = init.params()[0] if init.params() else 'self'
+            for n in cfg.live_nodes():
+                if n.kind != 'stmt' or not isinstance(n.ast, (ast.Assign, ast.AnnAssign)) or getattr(n.ast, 'value', None) is None:
+                    continue
+                for t in (n.ast.targets if isinstance(n.ast, ast.Assign) else [n.ast.target]):
+                    for x in (t.elts if isinstance(t, (ast.Tuple, ast.List)) else [t]):
+                        if isinstance(x, ast.Attribute) and isinstance(x.value, ast.Name) and x.value.id == sn:
+                            assigned.setdefault(x.attr, []).append(n.id)
+            for n in walk_self(init.node):
+                if isinstance(n, ast.Call) and isinstance(n.func, ast.Name) and n.func.id == 'setattr':
+                    raise UnknownIdiom('%s binds attributes through setattr()' % init.qual)
+
+        def fallback(name: str) -> str:
+            m = p.lookup_method(cq, name)
+            if m is not None:
+                return 'abstract' if _is_abstract(p, m) else 'working'
+            _c, v = p.lookup_class_attr(cq, name)
+            return 'working' if v is not None else 'none'
+
+        slots = set(assigned)
+        if cq == JSON_HANDLER:
+            slots |= set(abstract)
+        for name in sorted(slots):
+            fb = fallback(name)
+            if fb == 'working':
+                if cq == JSON_HANDLER and name in abstract:
+                    n_ob += 1
+                    m = p.lookup_method(cq, name)
+                    run.ok('JSONHandler provides the %s slot at class level (%s)' % (name, m.qual if m is not None else 'class attribute'),
+                           m.loc() if m is not None else c.loc(), name)
+                continue
+            if name not in abstract and not (name.startswith('serialize') or name.startswith('deserialize')
+                                             or name.startswith('_serialize') or name.startswith('_deserialize')):
+                continue   # plain state (self._dumps, ...): definite assignment of ordinary attributes is not this rule's business
+            n_ob += 1
+            if not assigned.get(name):
+                run.fail('%s provides the %s slot (class-level definition or a binding in its constructor)' % (cq.rsplit('.', 1)[-1], name),
+                         init if init is not None else cq, 'no %s' % name, where=(init.loc() if init is not None else c.loc()),
+                         runtime_witness='handler.%s(...) raises NotImplementedError / AttributeError: resp.media or req.get_media() is a 500' % name)
+                continue
+            run.use_cfg(cfg)
+            path = flow.find_path(cfg, [cfg.entry], [cfg.exit], avoid_nodes=assigned[name], edge_filter=flow.no_exc)
+            run.check(path is None, '%s.__init__ binds self.%s on every normal path (the class-level fallback is %s)'
+                      % (cq.rsplit('.', 1)[-1], name, 'BaseHandler\'s NotImplementedError placeholder' if fb == 'abstract' else 'missing'),
+                      init, 'self.%s is not bound on this path' % name, where=init.loc(cfg.node(assigned[name][0]).ast),
+                      witness=flow.describe_path(cfg, path) if path else None,
+                      runtime_witness='JSONHandler(dumps=<function returning bytes>): handler.%s is BaseHandler.%s -> NotImplementedError, '
+                                      'every resp.media = doc answers 500' % (name, name))
+    if n_ob == 0:
+        raise AnchorError('no handler class binds a serializer slot per instance and %s was not found' % JSON_HANDLER)
+
 
 def check(run):
     run.assume('E5 assumptions (see C09/C11); the configured JSON loads() raises ValueError subclasses only (json.JSONDecodeError is one)')
@@ -1447,3 +1547,4 @@ def check(run):
     run.rule('R6', _safe(r6_form_quoting), "the form serializer's quoting function escapes '%' and the form delimiters unconditionally (no *_check_escaped encoder)", floor=4)
     run.rule('R7', _safe(r7_form_reader_rejects_only_parse_failures), 'the form reader rejects a body only for a failure of its parsing primitives, never by '
              'inspecting the percent-decoded content (U+FFFD sniffing, pattern / membership tests on decoded text)', floor=2)
+    run.rule('R8', _safe(r8_handler_slots_bound), 'a (de)serializer slot without a working class-level fallback is bound on every normal path of the handler constructor (both dumps() result types)', floor=2)
